@@ -9,6 +9,7 @@ trap 'rm -rf "$work"' EXIT
 fail=0; n=0
 for d in "$here"/seeded/${1:-}*/; do
   id="$(basename "$d")"
+  if grep -q '"obsolete_since"' "$d/meta.json"; then echo "$id: skipped (no longer breaks its property on the current tree, see meta.json)"; continue; fi
   checks=$(python3 -c "import json,sys; print(' '.join(sorted({c.split()[0] for c in json.load(open(sys.argv[1]))['caught_by']})))" "$d/meta.json")
   rm -rf "$work/repo"; git clone -q /repo "$work/repo" || exit 3
   if ! git -C "$work/repo" apply "$d/patch.diff" 2>/dev/null; then echo "$id: PATCH DOES NOT APPLY"; fail=1; continue; fi
